@@ -29,8 +29,8 @@ theorem beN_length (n v : Nat) : (beN n v).length = n := by simp [beN, leN_lengt
 theorem beVal_beN (n v : Nat) : beVal (beN n v) = v % 256 ^ n := by
   simp [beVal, beN, leVal_leN]
 
-theorem be32_length (v : Nat) : (be32 v).length = 4 := beN_length 4 v
-theorem be64_length (v : Nat) : (be64 v).length = 8 := beN_length 8 v
+private theorem be32_length (v : Nat) : (be32 v).length = 4 := beN_length 4 v
+private theorem be64_length (v : Nat) : (be64 v).length = 8 := beN_length 8 v
 
 theorem beVal_be32 {v : Nat} (h : v < 2^32) : beVal (be32 v) = v := by
   rw [be32, beVal_beN]; exact Nat.mod_eq_of_lt (by simpa using h)
@@ -38,7 +38,7 @@ theorem beVal_be32 {v : Nat} (h : v < 2^32) : beVal (be32 v) = v := by
 theorem beVal_be64 {v : Nat} (h : v < 2^64) : beVal (be64 v) = v := by
   rw [be64, beVal_beN]; exact Nat.mod_eq_of_lt (by simpa using h)
 
-theorem flatMap_be64_length (l : List Nat) : (l.flatMap be64).length = l.length * 8 := by
+private theorem flatMap_be64_length (l : List Nat) : (l.flatMap be64).length = l.length * 8 := by
   induction l with
   | nil => rfl
   | cons x l ih => simp [List.flatMap_cons, be64_length, ih]; omega
